@@ -386,7 +386,7 @@ def distance_wei_floyd(adjacency, transform=None):
         with np.errstate(divide='ignore'):
             if transform == 'log':
                 #SPL = logtransform(adjacency)
-                SPL = -np.log(adjacency)
+                SPL = -np.log(adjacency) + 0.0  # -log(1) is -0.0; keep zero lengths positive
             elif transform == 'inv':
                 #SPL = invert(adjacency)
                 SPL = 1 / adjacency
